@@ -35,7 +35,6 @@ import (
 	"github.com/XiaoMi/Gaea/models"
 	"github.com/XiaoMi/Gaea/mysql"
 	"github.com/XiaoMi/Gaea/parser/ast"
-	"github.com/XiaoMi/Gaea/proxy/router"
 	"github.com/XiaoMi/Gaea/util"
 	kit "github.com/XiaoMi/Gaea/verifkit"
 	"github.com/XiaoMi/Gaea/verifkit/mycli"
